@@ -91,7 +91,7 @@ def mc_configs(tier):
          base(BindHosts={1, 2}, BindAddrs={"wild", "lo", "a1", "a2"}, BindPorts={5000},
               PeerAddrs={"a1", "b1"}, ConnHosts={1, 2}, ConnAddrs={"lo", "a1", "a2", "x", "wild"},
               ConnPorts={5000}, StallHosts={2}, MaxSocks=4, MaxOps=4 if q else 5, SwPorts={5000}),
-         plain + ["CloseConnMC", "ConnectUdpMC", "ConnectMC", "StallMC"]),
+         plain + ["CloseConnMC", "ConnectUdpMC", "ConnectMC", "StallMC", "CloseMidMC"]),
         # the two IP families are disjoint name spaces
         ("mc_fam", "Spec",
          base(Fams={4, 6}, Protos={"udp"}, BindAddrs={"wild", "a1"}, PeerAddrs={"a1"},
